@@ -74,6 +74,9 @@ def rotation_matrix(alpha, beta, gamma, radians = True):
     compatability with the passive picture used by SCSMFO.
 
     """
+    # (double precision: the cosine of an int8 angle is a float16)
+    alpha, beta, gamma = (np.asarray(angle, dtype=float)
+                          for angle in (alpha, beta, gamma))
     if not radians:
         # (not in place: the angles may be the caller's arrays)
         alpha = alpha * (pi/180.)
@@ -92,8 +95,16 @@ def rotation_matrix(alpha, beta, gamma, radians = True):
                      -ca*sb, sa*sb, cb]).reshape((3,3)) # row major
 
 
+def _float_coordinates(coordinates):
+    # the three coordinates as double precision arrays of one common shape:
+    # integer-typed coordinates (pixel indices) would overflow when squared,
+    # and a scalar may accompany arrays
+    return np.broadcast_arrays(
+        *(np.asarray(coordinate, dtype=float) for coordinate in coordinates))
+
+
 def transform_cartesian_to_spherical(x_y_z):
-    x, y, z = x_y_z
+    x, y, z = _float_coordinates(x_y_z)
     r = np.sqrt(x*x + y*y + z*z)
     theta = np.arctan2(np.sqrt(x**2 + y**2), z)
     phi = np.arctan2(y, x) % (2*np.pi)
@@ -101,7 +112,7 @@ def transform_cartesian_to_spherical(x_y_z):
 
 
 def transform_spherical_to_cartesian(r_theta_phi):
-    r, theta, phi = r_theta_phi
+    r, theta, phi = _float_coordinates(r_theta_phi)
     x = r * np.cos(phi) * np.sin(theta)
     y = r * np.sin(phi) * np.sin(theta)
     z = r * np.cos(theta)
@@ -109,7 +120,7 @@ def transform_spherical_to_cartesian(r_theta_phi):
 
 
 def transform_cartesian_to_cylindrical(x_y_z):
-    x, y, z = x_y_z
+    x, y, z = _float_coordinates(x_y_z)
     rho = np.sqrt(x**2 + y**2)
     phi = np.arctan2(y, x) % (2*np.pi)
     z = (np.full(np.shape(rho), z) if np.size(z) == 1 else z)
@@ -117,7 +128,7 @@ def transform_cartesian_to_cylindrical(x_y_z):
 
 
 def transform_cylindrical_to_cartesian(rho_phi_z):
-    rho, phi, z = rho_phi_z
+    rho, phi, z = _float_coordinates(rho_phi_z)
     x = rho * np.cos(phi)
     y = rho * np.sin(phi)
     z = (np.full(np.shape(x), z) if np.size(z) == 1 else z)
@@ -125,20 +136,21 @@ def transform_cylindrical_to_cartesian(rho_phi_z):
 
 
 def transform_cylindrical_to_spherical(rho_phi_z):
-    rho, phi, z = rho_phi_z
+    rho, phi, z = _float_coordinates(rho_phi_z)
     r = np.sqrt(rho**2 + z**2)
     theta = np.arctan2(rho, z)
     return np.array([r, theta, phi])
 
 
 def transform_spherical_to_cylindrical(r_theta_phi):
-    r, theta, phi = r_theta_phi
+    r, theta, phi = _float_coordinates(r_theta_phi)
     rho = r * np.sin(theta)
     z = r * np.cos(theta)
     return np.array([rho, phi, z])
 
 
-def keep_in_same_coordinates(coords): return np.array(coords)
+def keep_in_same_coordinates(coords):
+    return np.array(_float_coordinates(coords))
 
 
 _transformation_lut = {
